@@ -143,10 +143,11 @@ theorem mem_flattenL_leaves (pre : Str) (hid : Bool) (qs : List (Str × Kvs)) {f
   induction qs with
   | nil => simp [flattenL]
   | cons q rest ih =>
-    simp only [List.map_cons, flattenL, flatten, List.mem_append, List.mem_cons, List.append_nil]
-    rintro ((h | h) | h)
+    simp only [List.map_cons, flattenL, flatten, List.mem_append, List.mem_cons]
+    rintro ((h | h | h) | h)
     · exact ⟨q, by simp, by rw [h]⟩
-    · simp at h
+    · simp [tagFlats, rowElem] at h
+    · simp [flattenL] at h
     · obtain ⟨q', hq', hd⟩ := ih h
       exact ⟨q', by simp [hq'], hd⟩
 
@@ -154,8 +155,7 @@ theorem mem_flattenL_leaves (pre : Str) (hid : Bool) (qs : List (Str × Kvs)) {f
 theorem wf_sheetSurvey (dl : Str) (qs : List (Str × Kvs)) (ls : List (Str × List Kvs))
     (hq : ∀ q ∈ qs, ∀ c ∈ textCols, Flat (q.2.get c))
     (hl : ∀ l ∈ ls, ∀ o ∈ l.2, Flat (o.get "label".toList)) :
-    wf (sheetSurvey dl qs ls) = true ∧ tagsPlain (sheetSurvey dl qs ls) = true := by
-  constructor
+    wf (sheetSurvey dl qs ls) = true := by
   · simp only [wf, Bool.and_eq_true, List.all_eq_true]
     constructor
     · intro f hf
@@ -173,11 +173,6 @@ theorem wf_sheetSurvey (dl : Str) (qs : List (Str × Kvs)) (ls : List (Str × Li
       obtain ⟨o0, ho0, rfl⟩ := ho
       simp only [optWf, mediaWf, Bool.and_true]
       exact txtOfV_wf (hl l0 hl0 o0 ho0)
-  · simp only [tagsPlain, List.all_eq_true]
-    intro f hf
-    obtain ⟨q, _, hd⟩ := mem_flattenL_leaves _ _ qs (by simpa [flats, sheetSurvey, rootD, rootKids] using hf)
-    rw [hd]
-    simp [rowElem]
 
 /-- all rows of a sheet through `process_row` -/
 def processRows (dk : Str) (hk : List (Str × List Str)) : List (List (Str × Str)) → Except Err (List Kvs)
@@ -230,7 +225,7 @@ theorem refs_exist_rows_partial (dl : Str) (hkS hkC : List (Str × List Str))
       simp only [List.mem_singleton] at hl
       subst hl
       exact hcf o ho _ (by simp))
-  exact ⟨C07.refs_exist _ hw.1 hw.2, C07.holds_out _ hw.1 hw.2⟩
+  exact ⟨C07.refs_exist _ hw, C07.holds_out _ hw⟩
 
 /-! ### effective text: what a language shows for a translated label is the cell typed for it -/
 
@@ -240,9 +235,8 @@ theorem flattenL_leaves (pre : Str) (hid : Bool) (qs : List (Str × Kvs)) :
   induction qs with
   | nil => simp [flattenL]
   | cons q rest ih =>
-    simp only [List.map_cons, flattenL, flatten, ih, List.append_nil, List.cons_append, List.nil_append]
-    congr 2
-    simp [rowElem]
+    simp only [List.map_cons, flattenL, flatten, ih]
+    simp [tagFlats, rowElem, flattenL]
 
 theorem flats_sheet (dl : Str) (qs : List (Str × Kvs)) (ls : List (Str × List Kvs)) :
     flats (sheetSurvey dl qs ls) =
